@@ -589,8 +589,64 @@ OPS3 = ["deriveFields", "deriveFields", "deriveMetadataFn", "deriveMetadataFn", 
         "weightGeometricDecay", "weightGeometricDecay", "paidBs", "reportedBs", "addStaticsDefault",
         "wideRoundTrip", "longRoundTrip", "matrixRoundTrip", "arrayRoundTrip",
         "dropOffDiagonals", "toSlice", "sliceToTriangle", "makePredTriangleWithInit", "makePredTriangleWithInit",
-        "disaggDev", "disaggDev", "disagg"]
-READER_OPS = ("wideRoundTrip", "longRoundTrip", "matrixRoundTrip", "arrayRoundTrip")
+        "disaggDev", "disaggDev", "disagg",
+        # Op4 (Model/AllOps3.lean)
+        "rightEdgeStatics", "arrayFullRoundTrip", "arrayBuilderRoundTrip", "richRoundTrip", "matrixOptRoundTrip",
+        "getItemAny", "getItemAny", "sliceGetItemAny", "sliceGetItemAny", "makePredTriangle", "makePredTriangleComplement",
+        "makePredTriangleComplement", "binaryRoundTrip", "binaryRoundTrip"]
+READER_OPS = ("wideRoundTrip", "longRoundTrip", "matrixRoundTrip", "arrayRoundTrip", "rightEdgeStatics",
+              "arrayFullRoundTrip", "arrayBuilderRoundTrip", "richRoundTrip", "matrixOptRoundTrip")
+TABULAR_STARTS = ("wideRoundTrip", "longRoundTrip", "matrixRoundTrip", "arrayRoundTrip", "rightEdgeStatics",
+                  "arrayFullRoundTrip", "arrayBuilderRoundTrip", "richRoundTrip", "matrixOptRoundTrip",
+                  "binaryRoundTrip", "binaryRoundTrip")
+SINGLE_SLICE_READERS = ("arrayRoundTrip", "rightEdgeStatics", "arrayFullRoundTrip", "arrayBuilderRoundTrip")
+
+
+def _rand_index(rng, t, n_tuple):
+    """an index object for `__getitem__` and its wire form (Select.Index): ints, positional slices, tuples of dates /
+    date slices / Metadata / falsy / junk of the right and of wrong lengths, objects without `len`"""
+    dates = sorted({c.period_start for c in t.cells} | {c.evaluation_date for c in t.cells}) or [datetime.date(2020, 1, 1)]
+
+    def date_part():
+        u = rng.random()
+        if u < 0.35:
+            d = rng.choice(dates)
+            return d, ["date", w_date(d)]
+        if u < 0.85:
+            a = rng.choice([None, rng.choice(dates)])
+            b = rng.choice([None, rng.choice(dates)])
+            return slice(a, b), ["slice", w_date(a), w_date(b)]
+        if u < 0.93:
+            return None, ["falsy"]
+        return "junk", ["junk"]
+
+    def meta_part():
+        u = rng.random()
+        if u < 0.35:
+            return slice(None, None, None), ["slice", None, None]
+        if u < 0.65 and len(t):
+            m = rng.choice(t.metadata) if rng.random() < 0.85 else Metadata(country="nowhere")
+            return m, ["md", w_meta(m)]
+        if u < 0.8:
+            return rng.choice([None, 0, "", []]), ["falsy"]
+        if u < 0.9:
+            return slice(rng.choice(dates), None), ["slice", w_date(rng.choice(dates)), None]
+        return rng.choice(["x", [1], 3]), ["junk"]
+
+    u = rng.random()
+    if u < 0.15:
+        i = rng.choice([0, -1, 1, len(t), -len(t) - 1, 2, -2, True])
+        return i, {"kind": "int", "i": int(i)}
+    if u < 0.3:
+        i, j, k = rng.choice([None, 0, 1, -2]), rng.choice([None, 2, -1, 5]), rng.choice([None, None, 1, 2, -1, 0])
+        return slice(i, j, k), {"kind": "slice", "i": i, "j": j, "k": k}
+    if u < 0.36:
+        return rng.choice([None, datetime.date(2020, 1, 1)]), {"kind": "noLen"}
+    n = n_tuple if rng.random() < 0.85 else rng.choice([1, 2, 3, 4])
+    parts = [date_part() for _ in range(min(n, 2))] + [meta_part() for _ in range(max(0, n - 2))]
+    if rng.random() < 0.1 and len(parts) > 1:
+        parts[1] = meta_part()          # a Metadata / junk where a date belongs: ValueError
+    return tuple(p[0] for p in parts), {"kind": "tuple", "xs": [p[1] for p in parts]}
 
 
 def _csv_safe(t, scalar_only=False, same_fields=True):
@@ -915,7 +971,7 @@ def make_op3(rng, t, k=None):
         lpm = __import__("importlib").import_module("bermuda.utils.merge").loose_period_merge
         return {"op": k, "b": w_cells(o.cells), "suffix": suffix}, lambda x: lpm(x, o, suffix=suffix)
     import bermuda as _b
-    if k in READER_OPS:
+    if k in ("wideRoundTrip", "longRoundTrip", "matrixRoundTrip", "arrayRoundTrip"):
         if not _csv_safe(t, scalar_only=(k == "arrayRoundTrip"), same_fields=k in ("arrayRoundTrip", "matrixRoundTrip")):
             return make_op3(rng, t, rng.choice(["deriveFields", "filterFn", "replaceFn"]))
         import tempfile as _tf
@@ -945,6 +1001,165 @@ def make_op3(rng, t, k=None):
         md = t.metadata[0]
         return ({"op": k, "field": field, "md": w_meta(md), "res": None},
                 lambda x: Triangle.from_array_data_frame(x.to_array_data_frame(field), field, metadata=md))
+    if k == "binaryRoundTrip":
+        import tempfile as _tf
+        import numpy as np
+        # the exact model holds finite numbers only; every finite double is representable
+        for c in t.cells:
+            for v in c.values.values():
+                if v is not None and not np.all(np.isfinite(np.asarray(v, dtype=float))):
+                    return make_op3(rng, t, "filterFn")
+        ext = rng.choice([".trib", ".trib", ".tribc", ".tribc", ".bin"])
+        wflag = rng.choice([None, None, False, True])           # None: the writer's default (False)
+        rflag = rng.choice([None, None, wflag, False, True])    # None / False: the reader infers from the extension
+        if rng.random() < 0.6:
+            # the usual consistent calls
+            wflag, rflag = (True, rng.choice([None, True])) if ext == ".tribc" else (rng.choice([None, False]), rng.choice([None, False]))
+
+        def fn(x):
+            import warnings as _w
+            with _tf.TemporaryDirectory(prefix="verif-c01-") as td, _w.catch_warnings():
+                _w.simplefilter("ignore")
+                path = td + "/t" + ext
+                x.to_binary(path, **({} if wflag is None else {"compress": wflag}))
+                return Triangle.from_binary(path, **({} if rflag is None else {"compress": rflag}))
+        return {"op": k, "ext": ext, "wflag": bool(wflag), "rflag": rflag}, fn
+    if k in ("getItemAny", "sliceGetItemAny"):
+        is_slice = k == "sliceGetItemAny"
+        index, wi = _rand_index(rng, t, 2 if is_slice else 3)
+        w = {"op": k, "index": wi}
+        if is_slice:
+            return w, lambda x: _b.utils.triangle_to_slice(x)[index]
+        # after triangle_to_slice / TriangleSlice[...] the Python object is a TriangleSlice, whose __getitem__ is the
+        # two-index form (the model's state is a cell list): index it as a plain Triangle
+        from bermuda.triangle import TriangleSlice as _TS
+        return w, lambda x: (_b.utils.slice_to_triangle(x) if isinstance(x, _TS) else x)[index]
+    if k == "rightEdgeStatics":
+        if not (env.aligned and env.n and not env.inc and len(t.metadata) == 1 and _csv_safe(t, scalar_only=True)):
+            return make_op3(rng, t, "filterFn")
+        pr = _b.date_utils.period_resolution(t)
+        res = pr if pr and rng.random() < 0.8 else rng.choice([None, 3, 12])
+        hi = max(c.period_end for c in t.cells)
+        ev = rng.choice([None, hi, gen.add_months_int(hi, 12, end=True), max(c.evaluation_date for c in t.cells)])
+        md = rng.choice([t.metadata[0], gen.rand_metas(rng, 1)[0]])
+        return ({"op": k, "evaluation": w_date(ev), "res": res, "md": w_meta(md)},
+                lambda x: Triangle.from_statics_data_frame(x.to_right_edge_data_frame().drop(columns=["evaluation_date"]),
+                                                           evaluation_date=ev, period_resolution=res, metadata=md))
+    if k in ("arrayFullRoundTrip", "arrayBuilderRoundTrip"):
+        if not (env.aligned and env.n and _csv_safe(t, scalar_only=True)):
+            return make_op3(rng, t, "filterFn")
+        pr = _b.date_utils.period_resolution(t)
+        res = rng.choice([None, pr, pr, 3])
+        eval_res = rng.choice([None, None, 3, 12, pr])
+        from_end = rng.random() < 0.7
+        md = rng.choice([t.metadata[0], gen.rand_metas(rng, 1)[0]])
+        kw = dict(period_resolution=res, eval_resolution=eval_res, dev_lag_from_period_end=from_end, metadata=md)
+        base = {"res": res, "evalRes": eval_res, "fromEnd": from_end, "md": w_meta(md)}
+        import warnings as _w
+
+        def quiet(f):
+            def g(x):
+                with _w.catch_warnings():
+                    _w.simplefilter("ignore")
+                    return f(x)
+            return g
+        if k == "arrayFullRoundTrip":
+            field = rng.choice(env.fields)
+            return ({"op": k, "field": field, **base},
+                    quiet(lambda x: Triangle.from_array_data_frame(x.to_array_data_frame(field), field, **kw)))
+        from bermuda.io.array import array_triangle_builder
+        fields = rng.sample(env.fields, rng.randrange(min(2, len(env.fields)), len(env.fields) + 1))
+        if len(fields) > 1 and rng.random() < 0.2:
+            fields[-1] = fields[0]
+        return ({"op": k, "fields": fields, **base},
+                quiet(lambda x: array_triangle_builder([x.to_array_data_frame(f) for f in fields], fields, **kw)))
+    if k in ("richRoundTrip", "matrixOptRoundTrip"):
+        if not (env.aligned and env.n and _csv_safe(t, same_fields=False)):
+            return make_op3(rng, t, "filterFn")
+        eval_res = rng.choice([None, None, 1, 3, 12, 0])
+        fields = rng.choice([None, None, env.fields[:1], [f for f in env.fields if rng.random() < 0.7], ["nope"], []])
+        kw = {}
+        if eval_res is not None or rng.random() < 0.3:
+            kw["eval_resolution"] = eval_res
+        if fields is not None or rng.random() < 0.3:
+            kw["fields"] = fields
+        import warnings as _w
+        if k == "richRoundTrip":
+            from bermuda.io.rich_matrix import rich_matrix_to_triangle, triangle_to_rich_matrix
+            rd, wr = rich_matrix_to_triangle, triangle_to_rich_matrix
+        else:
+            from bermuda.io.matrix import matrix_to_triangle, triangle_to_matrix
+            rd, wr = matrix_to_triangle, triangle_to_matrix
+
+        def fn(x):
+            with _w.catch_warnings():
+                _w.simplefilter("ignore")
+                return rd(wr(x, **kw))
+        return {"op": k, "evalRes": eval_res, "fields": fields}, fn
+    if k == "makePredTriangle":
+        res = rng.choice([3, 6, 12, 1])
+        y0 = rng.randrange(2000, 2025)
+        m0 = rng.choice(range(1, 13, res)) if res < 12 else 1
+        min_p = datetime.date(y0, m0, 1)
+        n_p = rng.randrange(1, 4)
+        max_p = gen.add_months_int(min_p, n_p * res - 1, end=True)
+        if rng.random() < 0.15:
+            max_p = max_p + datetime.timedelta(days=rng.choice([-1, 10]))
+        metas = gen.rand_metas(rng, rng.choice([1, 2]))
+        q = lambda v, u_: [v if isinstance(v, int) else common.w_rat(v), u_]  # noqa: E731
+        exp_res = (res, rng.choice(["months", "month"])) if rng.random() < 0.8 else rng.choice([(res // 3 or 1, "quarters"), (1, "year"), (2, "fortnights")])
+        eval_res = (rng.choice([res, 3, 12]), "months")
+        kw = dict(metadata_sets=metas, min_period=min_p, max_period=max_p, exp_resolution=exp_res, eval_resolution=eval_res)
+        w = {"op": k, "metas": [w_meta(m) for m in metas], "minPeriod": w_date(min_p), "maxPeriod": w_date(max_p),
+             "expRes": q(*exp_res), "evalRes": q(*eval_res), "expOrigin": None, "minDevLag": [0, "months"], "maxDevLag": None,
+             "minEval": None, "maxEval": None, "inc": False}
+        if rng.random() < 0.2:
+            kw["exp_origin"] = min_p - datetime.timedelta(days=1) if rng.random() < 0.7 else gen.add_months_int(min_p, -res - 1, end=True)
+            w["expOrigin"] = w_date(kw["exp_origin"])
+        if rng.random() < 0.4:
+            kw["min_dev_lag"] = rng.choice([(0, "months"), (3, "months"), (1, "quarter"), (-6, "months"), None])
+            w["minDevLag"] = None if kw["min_dev_lag"] is None else q(*kw["min_dev_lag"])
+        if rng.random() < 0.8:
+            kw["max_dev_lag"] = rng.choice([(12, "months"), (24, "months"), (1, "year"), (6, "month"), (0, "months")])
+            w["maxDevLag"] = q(*kw["max_dev_lag"])
+        if rng.random() < 0.3:
+            kw["max_eval"] = gen.add_months_int(max_p, rng.choice([0, 6, 12, 18]), end=True)
+            w["maxEval"] = w_date(kw["max_eval"])
+        if rng.random() < 0.2:
+            kw["min_eval"] = gen.add_months_int(min_p, rng.choice([res - 1, res + 2, -1]), end=True)
+            w["minEval"] = w_date(kw["min_eval"])
+        if rng.random() < 0.4:
+            kw["is_incremental"] = rng.choice([True, True, False, None])
+            w["inc"] = bool(kw["is_incremental"])
+        u = rng.random()
+        if u < 0.12:
+            w["statics"] = None                # statics_fn=None: calling it is a TypeError
+        else:
+            vals = rng.choice([{}, {"earned_premium": 100}, {"earned_premium": 2.5, "x": 7}])
+            skip = rng.choice([None, None, min_p.month, 1, 7])
+            exc = rng.choice([KeyError, KeyError, IndexError, ValueError])
+            w["statics"] = {"vals": [[k_, common.w_val(v_)] for k_, v_ in vals.items()], "skipMonth": skip, "raise": exc.__name__}
+
+            def statics_fn(ob):
+                if skip is not None and ob.period_start.month == skip:
+                    raise exc("no statics")
+                return dict(vals)
+            kw["statics_fn"] = statics_fn
+        return w, lambda x: _b.utils.make_pred_triangle(**kw)
+    if k == "makePredTriangleComplement":
+        if not env.aligned or env.n == 0:
+            return make_op3(rng, t, "filterFn")
+        kw, w = {}, {"op": k, "staticFields": None, "maxDevLag": None, "evalResOverride": None}
+        if rng.random() < 0.4:
+            kw["static_fields"] = rng.choice([[], env.fields[:1], ["earned_premium"], env.fields])
+            w["staticFields"] = kw["static_fields"]
+        if rng.random() < 0.5:
+            kw["max_dev_lag"] = rng.choice([12, 24, 36, 6, 0])
+            w["maxDevLag"] = common.w_rat(kw["max_dev_lag"])
+        if rng.random() < 0.3:
+            kw["eval_date_resolution_override"] = rng.choice([3, 6, 12, 1])
+            w["evalResOverride"] = kw["eval_date_resolution_override"]
+        return w, lambda x: _b.utils.make_pred_triangle_complement(x, **kw)
     if k == "dropOffDiagonals":
         if not env.aligned:
             return make_op3(rng, t, "filterFn")
@@ -1121,6 +1336,13 @@ def make_op3(rng, t, k=None):
     return {"op": k, "b": w_cells(o.cells)}, lambda x: _b.utils.shift_origin(x, o)
 
 
+def _binary_roundtrip(t):
+    import tempfile as _tf
+    with _tf.TemporaryDirectory(prefix="verif-c01-") as td:
+        t.to_binary(td + "/t.trib")
+        return Triangle.from_binary(td + "/t.trib")
+
+
 PUBLIC_OPS = [
     ("to_incremental", lambda t, r: t.to_incremental()),
     ("to_cumulative", lambda t, r: t.to_cumulative()),
@@ -1147,6 +1369,7 @@ PUBLIC_OPS = [
     ("fill_forward_gaps", lambda t, r: __import__("bermuda").utils.fill_forward_gaps(t)),
     ("backfill", lambda t, r: __import__("bermuda").utils.backfill(t)),
     ("json_roundtrip", lambda t, r: Triangle.from_dict(t.to_dict())),
+    ("binary_roundtrip", lambda t, r: _binary_roundtrip(t)),
     ("union_interleaved", lambda t, r: t[0::2] | t[1::2]),
     ("symdiff_interleaved", lambda t, r: t[1::2] ^ t[0::2]),
     ("union_slices_reversed", lambda t, r: __import__("functools").reduce(lambda a, b: a | b, list(t.slices.values())[::-1])),
@@ -1397,21 +1620,22 @@ def correspondence(ctx):
     # (vi) chains over Op3: function arguments (expression trees), Set mixins, sum, t[i], loose_period_merge,
     # shift_origin, mixed with the Op2 / Op operations
     n_chain2_reqs = len(reqs)
-    chain3_cases, cellat_cases = [], []
+    chain3_cases, cellat_cases, item_cases = [], [], []
     n_chain3 = 1200 if ctx.thorough else 170
     for i in range(n_chain3):
         quarterly = rng.random() < 0.15
         bs = (not quarterly) and rng.random() < 0.12
-        tabular = (not quarterly) and (not bs) and rng.random() < 0.16
+        tabular = (not quarterly) and (not bs) and rng.random() < 0.24
         coarse = (not quarterly) and (not bs) and (not tabular) and rng.random() < 0.1
+        single = (not quarterly) and (not bs) and (not tabular) and (not coarse) and rng.random() < 0.08
         if bs:
             cells = _bs_cells(rng)
         elif tabular:
             # inside the domain of the tabular row model: no empty strings, one slice for the array frame
             import dataclasses as _dc
-            reader = rng.choice(READER_OPS)
-            if reader == "arrayRoundTrip" and rng.random() < 0.85:
-                cells = gen.rand_cells(rng, max_cells=12, layout=rng.choice(["regular", "regular", "ragged"]), n_slices=1,
+            reader = rng.choice(TABULAR_STARTS)
+            if reader in SINGLE_SLICE_READERS and rng.random() < 0.85:
+                cells = gen.rand_cells(rng, max_cells=14, layout=rng.choice(["regular", "regular", "ragged"]), n_slices=1,
                                        kind=rng.choice(["C", "U"]), vkind=rng.choice(["int", "float"]),
                                        fields=["paid_loss", "reported_loss"])
             else:
@@ -1425,6 +1649,10 @@ def correspondence(ctx):
             cells = [c.replace(metadata=_dc.replace(c.metadata, **{a: (getattr(c.metadata, a) or None) for a in
                                                                      ("country", "currency", "reinsurance_basis", "loss_definition")}))
                      for c in cells]
+        elif single:
+            # one slice: TriangleSlice construction and its two-index __getitem__ succeed
+            cells = gen.rand_cells(rng, max_cells=14, n_slices=1, layout=rng.choice(["regular", "ragged", "daily"]),
+                                   vkind=rng.choice(["int", "float"]), fields=["paid_loss", "reported_loss"])
         elif coarse:
             # a regular cumulative triangle at a coarse evaluation resolution: disaggregate_development really interpolates
             rows = gen.layout_regular(rng, res=rng.choice([3, 6, 12]), n_periods=rng.randrange(1, 4), n_lags=rng.randrange(2, 5),
@@ -1459,6 +1687,9 @@ def correspondence(ctx):
             elif tabular and step_no == 0:
                 w, fn = make_op3(rng, t, reader)
                 st, t2 = call(fn, t)
+            elif single and step_no < 2:
+                w, fn = make_op3(rng, t, "sliceGetItemAny")
+                st, t2 = call(fn, t)
             elif coarse and step_no == 0:
                 w, fn = make_op3(rng, t, rng.choice(["disaggDev", "disaggDev", "disagg"]))
                 st, t2 = call(fn, t)
@@ -1482,6 +1713,15 @@ def correspondence(ctx):
             if w.pop("skip", False):
                 ctx.count(f"chain3/op={w['op']}/nan-skipped")
                 continue
+            if w["op"] in ("getItemAny", "sliceGetItemAny"):
+                # the returned object itself (a triangle or a cell) against the model, whatever the index was
+                try:
+                    got = ({"err": t2} if st == "err" else {"tri": w_cells(t2.cells)} if isinstance(t2, Triangle)
+                           else {"cell": w_cell(t2)})
+                    item_cases.append(({"op": "item", "cells": w_cells(t.cells), "index": w["index"],
+                                        "slice": w["op"] == "sliceGetItemAny"}, got))
+                except (common.Infra, TypeError, ValueError):
+                    pass
             if st == "ok" and isinstance(t2, Triangle) and u < 0.72 and rng.random() < 0.25:
                 # sequence stream: the same call on the same objects again (state carried between calls)
                 try:
@@ -1517,7 +1757,7 @@ def correspondence(ctx):
         except (TypeError, ValueError, OverflowError):
             ctx.count("chain3/result not encodable (NaN / inf / object array)")   # outside the exact wire format
             continue
-        reqs.append({"op": "chain3", "cells": w_cells(cells), "ops": wire_ops, "impl": d.get("ok")})
+        reqs.append({"op": "chain4", "cells": w_cells(cells), "ops": wire_ops, "impl": d.get("ok")})
         chain3_cases.append((d, wire_ops))
         ctx.case(digest=json.dumps([canon(w_cells(cells)), wire_ops], sort_keys=True, default=str),
                  nontrivial=len(wire_ops) > 1,
@@ -1525,8 +1765,19 @@ def correspondence(ctx):
 
     n_chain3_reqs = len(reqs)
     reqs += [r for r, _ in cellat_cases]
+    n_item_reqs = len(reqs)
+    reqs += [r for r, _ in item_cases]
     outs_all = drv.run(reqs)
-    for (r, impl_cell), out in zip(cellat_cases, outs_all[n_chain3_reqs:]):
+    for (r, got), out in zip(item_cases, outs_all[n_item_reqs:]):
+        m = out["model"]
+        same = ("err" in m) == ("err" in got)
+        if same and "ok" in m:
+            mo = m["ok"]
+            same = ("tri" in mo and "tri" in got and canon(mo["tri"]) == canon(got["tri"])) or \
+                   ("cell" in mo and "cell" in got and canon_cell(mo["cell"]) == canon_cell(got["cell"]))
+        if not same:
+            ctx.disagree("t[index] / TriangleSlice[index]", {"cells": r["cells"], "index": r["index"], "slice": r["slice"]}, m, got)
+    for (r, impl_cell), out in zip(cellat_cases, outs_all[n_chain3_reqs:n_item_reqs]):
         if "ok" not in out["model"] or canon_cell(out["model"]["ok"]) != canon_cell(impl_cell):
             ctx.disagree("t[i] (integer index)", {"cells": r["cells"], "i": r["i"]}, out["model"], impl_cell)
     outs = outs_all[:n_model_reqs]
